@@ -149,6 +149,44 @@ func genProgX(rng *kc.Rng, q *big.Int, n int, src func(i int) []byte, withBase b
 		p.stmts = append(p.stmts, stmt{dst: newP(), op: "dec", lit: kc.HexB(src(1))})
 	}
 	for len(p.stmts) < n {
+		if withClone && np >= 2 && rng.Intn(5) == 0 {
+			// derive X from Y (neg/set/clone/add), then overwrite X in place: Y must not change
+			y := pv()
+			x := pv()
+			for x == y {
+				x = fmt.Sprintf("p%d", rng.Intn(np))
+				if np < 2 {
+					break
+				}
+			}
+			switch rng.Intn(4) {
+			case 0:
+				p.stmts = append(p.stmts, stmt{dst: x, op: "neg", args: []string{y}})
+			case 1:
+				p.stmts = append(p.stmts, stmt{dst: x, op: "set", args: []string{y}})
+			case 2:
+				p.stmts = append(p.stmts, stmt{dst: x, op: "clone", args: []string{y}})
+			default:
+				p.stmts = append(p.stmts, stmt{dst: x, op: "sub", args: []string{y, y}})
+			}
+			switch rng.Intn(5) {
+			case 0:
+				p.stmts = append(p.stmts, stmt{dst: x, op: "set", args: []string{pv()}})
+			case 1:
+				p.stmts = append(p.stmts, stmt{dst: x, op: "null"})
+			case 2:
+				if withBase {
+					p.stmts = append(p.stmts, stmt{dst: x, op: "base"})
+				}
+			case 3:
+				if src != nil {
+					p.stmts = append(p.stmts, stmt{dst: x, op: "dec", lit: kc.HexB(src(2 + rng.Intn(6)))})
+				}
+			default:
+				p.stmts = append(p.stmts, stmt{dst: x, op: "neg", args: []string{x}})
+			}
+			continue
+		}
 		switch k := rng.Intn(20); {
 		case k < 4:
 			a, b := pv(), pv()
@@ -184,7 +222,12 @@ func genProgX(rng *kc.Rng, q *big.Int, n int, src func(i int) []byte, withBase b
 				p.stmts = append(p.stmts, stmt{dst: newP(), op: "dec", lit: kc.HexB(src(2 + rng.Intn(6)))})
 			}
 		case k < 17:
-			p.stmts = append(p.stmts, stmt{dst: newS(), op: "const", lit: kc.HexN(rng.BigBelow(q))})
+			if rng.Intn(3) == 0 {
+				// SetBytes of an arbitrary-length string (odd lengths, longer than the scalar, empty)
+				p.stmts = append(p.stmts, stmt{dst: newS(), op: "setbytes", lit: kc.HexB(rng.Bytes(rng.Intn(70)))})
+			} else {
+				p.stmts = append(p.stmts, stmt{dst: newS(), op: "const", lit: kc.HexN(rng.BigBelow(q))})
+			}
 		default:
 			if !scalarOps {
 				continue
@@ -356,6 +399,18 @@ func (st *progState) exec(g *groups.G, s stmt, aliased bool) {
 	case "const":
 		v, _ := new(big.Int).SetString(s.lit, 16)
 		sret = r.SetBytes(encScalar(g, v.Mod(v, g.Q)))
+	case "setbytes":
+		// the literal is a little-endian string of any length; implementations whose declared byte
+		// order is big-endian receive it reversed, so that every instance is given the same integer
+		b := mustHex(s.lit)
+		if !groupCaps(g).le {
+			rb := make([]byte, len(b))
+			for i := range b {
+				rb[len(b)-1-i] = b[i]
+			}
+			b = rb
+		}
+		sret = r.SetBytes(b)
 	case "add":
 		sret = r.Add(S(s.args[0]), S(s.args[1]))
 	case "sub":
